@@ -342,7 +342,9 @@ def gen_value(rng, kind, kw):
     if kw in ('model', 'details', 'site', 'allocation_constraints', 'service_endpoint', 'controller_url',
               'mirror_port', 'mirror_vlan', 'technology', 'boot_script'):
         return ['str', g_text(rng)]
-    if kw in ('image_ref', 'image_type'):
+    if kw == 'image_ref':
+        return ['str', g_text(rng, 1, 10)]           # may contain commas (split at the last comma)
+    if kw == 'image_type':
         return ['str', g_text(rng, 1, 10, nocomma=True)]
     if kw in ('capacities', 'capacity_allocations'):
         return ['caps', g_caps(rng)]
@@ -436,13 +438,14 @@ def gen_props(rng, kind, mode, cover=None):
 # independent comparison of an original and a rebuilt sliver (property oracle)
 # ----------------------------------------------------------------------------------------------
 KNOWN_TAGS = {
-    'gateway-none': 'service without a gateway reads back with an empty Gateway object instead of None',
-    'empty-object': 'an empty Capacities/Labels/... object reads back as absent',
     'image-pair': 'image_ref / image_type are only stored as a pair',
-    'image-comma': 'an image_ref containing a comma cannot be read back',
-    'subif-drop': 'graph route does not write the sub-interfaces of an interface',
     'unset-unmapped': 'image_type / stitch_node have no unset mapping',
 }
+
+
+def nothing_set(tokv):
+    """a value object with nothing set: encoded as empty text and read back as absent - documented (C03)"""
+    return tokv is not None and tokv[0] == 'FObj' and tokv[2] in ('', None)
 
 
 def diff_attrs(kind, orig, back, path, out):
@@ -456,11 +459,9 @@ def diff_attrs(kind, orig, back, path, out):
             continue
         ov, bv = od[k], bd[k]
         tag = None
-        if k == 'gateway' and ov is None and bv == ['FObj', 'Gateway', None]:
-            tag = 'gateway-none'
-        elif ov is not None and ov[0] == 'FObj' and ov[2] == '' and bv is None:
-            tag = 'empty-object'
-        elif k in ('image_ref', 'image_type') and bv is None and (od.get('image_ref') is None or od.get('image_type') is None):
+        if nothing_set(ov) and bv is None:
+            continue
+        if k in ('image_ref', 'image_type') and bv is None and (od.get('image_ref') is None or od.get('image_type') is None):
             tag = 'image-pair'
         out.append((tag, '%s.%s: %s became %s' % (path, k, json.dumps(ov)[:80], json.dumps(bv)[:80])))
     for k in bd:
@@ -475,7 +476,11 @@ def tree_name(t):
     return None
 
 
-def diff_tree(orig, back, route, path, out):
+def tok_dedicated(t):
+    return dict(map(tuple, [(k, json.dumps(v)) for k, v in t['a']])).get('resource_type') == json.dumps(['FEnum', 'InterfaceType', 'DedicatedPort'])
+
+
+def diff_tree(orig, back, route, path, out, parent_kind=None):
     if back is None:
         out.append((None, '%s: sliver missing after the round trip' % path))
         return
@@ -486,14 +491,18 @@ def diff_tree(orig, back, route, path, out):
         out.append((None, '%s: node id %r became %r' % (path, orig['id'], back['id'])))
     diff_attrs(orig['k'], orig['a'], back['a'], path, out)
     for slot in ('c', 'n', 'i'):
+        if route == 'graph' and slot == 'i' and orig['k'] == 'interface' and \
+                (parent_kind == 'interface' or not tok_dedicated(orig)):
+            # outside the graph route's domain: the API only lets a DedicatedPort own child interfaces, one level
+            # deep (add_child_interface asserts it), and build_deep_interface_sliver only descends there
+            continue
         oc = {tree_name(x): x for x in (orig[slot] or [])}
         bc = {tree_name(x): x for x in (back[slot] or [])}
         for nm in oc:
             if nm not in bc:
-                tag = 'subif-drop' if (route == 'graph' and slot == 'i' and orig['k'] == 'interface') else None
-                out.append((tag, '%s/%s[%s]: child lost' % (path, slot, nm)))
+                out.append((None, '%s/%s[%s]: child lost' % (path, slot, nm)))
             else:
-                diff_tree(oc[nm], bc[nm], route, '%s/%s[%s]' % (path, slot, nm), out)
+                diff_tree(oc[nm], bc[nm], route, '%s/%s[%s]' % (path, slot, nm), out, orig['k'])
         for nm in bc:
             if nm not in oc:
                 out.append((None, '%s/%s[%s]: child appeared' % (path, slot, nm)))
@@ -607,9 +616,6 @@ class Flat(Stream):
             od = dict(map(tuple, o['a']))
             if od.get('resource_name') is None:
                 return None            # documented: a sliver without a name cannot be rebuilt (set_name raises)
-            ir = od.get('image_ref')
-            if ir and od.get('image_type') and (',' in ir[1] or ',' in od['image_type'][1]):
-                return 'K:image-comma | rebuilding raised ' + o['back']['err']
             return 'NEW | rebuilding the sliver from its properties raised %s %s' % (o['back']['err'], o['back']['msg'])
         devs = []
         diff_attrs(case['k'], o['a'], o['back'], case['k'], devs)
@@ -958,6 +964,14 @@ class Element(Stream):
                 self.cover[(k, p)] = self.cover.get((k, p), 0) + 1
                 out.append({'k': k, 'ops': [['get', p], ['unset', p], ['get', p], ['set', p, v], ['get', p],
                                             ['unset', p], ['get', p]]})
+        # legal falsy values ('' / False / ()) written over a truthy one must be read back, not dropped
+        for k in kinds:
+            for p in ('details', 'boot_script', 'model'):
+                out.append({'k': k, 'ops': [['set', p, ['str', 'x']], ['set', p, ['str', '']], ['get', p]]})
+            out.append({'k': k, 'ops': [['set', 'stitch_node', ['bool', True]], ['get', 'stitch_node'],
+                                        ['set', 'stitch_node', ['bool', False]], ['get', 'stitch_node']]})
+            out.append({'k': k, 'ops': [['set', 'node_map', ['tuple', ['a', 'b']]], ['set', 'node_map', ['tuple', []]],
+                                        ['get', 'node_map']]})
         for i in range(n):
             k = kinds[i % len(kinds)]
             out.append({'k': k, 'ops': self.gen_ops(rng, k, rng.randint(2, 8 if tier == 'quick' else 16))})
@@ -1096,19 +1110,15 @@ class Element(Stream):
                 if st is None:
                     continue
                 if st[0] == 'set':
-                    if json.dumps(got) != json.dumps(st[1]):
+                    if json.dumps(got) != json.dumps(st[1]) and not (nothing_set(st[1]) and got is None):
                         tag = None
                         if p in ('image_ref', 'image_type') and st[2] == 'single':
                             tag = 'image-pair'      # set without its partner: a no-op, the old value (or None) is read
-                        elif st[1] is not None and st[1][0] == 'FObj' and st[1][2] == '' and got is None:
-                            tag = 'empty-object'
                         devs.append((tag, 'op %d get %s after set: %s, expected %s' % (idx, p, json.dumps(got)[:70], json.dumps(st[1])[:70])))
                 elif st[0] == 'unset':
                     if got is not None:
                         tag = None
-                        if p == 'gateway' and got == ['FObj', 'Gateway', None]:
-                            tag = 'gateway-none'
-                        elif p in ('image_type', 'stitch_node') and p not in G.SLIVER_PROPERTY_TO_GRAPH:
+                        if p in ('image_type', 'stitch_node') and p not in G.SLIVER_PROPERTY_TO_GRAPH:
                             tag = 'unset-unmapped'
                         devs.append((tag, 'op %d get %s after unset: %s, expected None' % (idx, p, json.dumps(got)[:70])))
         return verdict(devs)
@@ -1162,37 +1172,6 @@ def load_corpus(stream):
 # ----------------------------------------------------------------------------------------------
 # refuted-theorem witnesses replayed on the implementation
 # ----------------------------------------------------------------------------------------------
-def w_subif():
-    I = Impl.get()
-    st = Deep()
-    case = st.corpus()[0]
-    o = st.observe(case)
-    devs = []
-    diff_tree(o['t'], o['via_graph'], 'graph', 'graph', devs) if not is_err(o['via_graph']) else devs.append((None, 'raised'))
-    still = any(t == 'subif-drop' for t, _ in devs)
-    return still, {'case': 'node1 > nic1 > ns1 > p1(DedicatedPort) > sub1, add_network_node_sliver + build_deep_node_sliver',
-                   'deviations': [d for _, d in devs]}
-
-
-def w_gateway():
-    I = Impl.get()
-    G = I.ABCPropertyGraph
-    s = I.NetworkServiceSliver()
-    s.set_name('s1')
-    back = G.network_service_sliver_from_graph_properties_dict(G.network_service_sliver_to_graph_properties_dict(s))
-    return (s.gateway is None and back.gateway is not None), {'original gateway': repr(s.gateway), 'rebuilt gateway': tok(back.gateway)}
-
-
-def w_empty():
-    I = Impl.get()
-    G = I.ABCPropertyGraph
-    s = I.NodeSliver()
-    s.set_name('n1')
-    s.set_capacities(I.cl.Capacities())
-    back = G.node_sliver_from_graph_properties_dict(G.node_sliver_to_graph_properties_dict(s))
-    return (back.capacities is None), {'original': tok(s.capacities), 'rebuilt': tok(back.capacities)}
-
-
 def w_image():
     I = Impl.get()
     t, el = make_topology()
@@ -1211,20 +1190,6 @@ def w_image():
     return (a is None and b is None and c == 'qcow2' and d is True), {
         'get image_ref after set_property(image_ref)': a, 'get image_type after set_property(image_type)': b,
         'get image_type after unset': c, 'get stitch_node after set True, unset': d}
-
-
-def w_comma():
-    I = Impl.get()
-    t, el = make_topology()
-    n = el['node']
-    n.set_properties(image_ref='a,b', image_type='qcow2')
-    try:
-        n.get_property('site')
-        r = None
-    except Exception as e:
-        r = type(e).__name__
-    reset_store()
-    return (r is not None), {'get_property(site) after set_properties(image_ref="a,b", image_type="qcow2")': r}
 
 
 class C02(Check):
@@ -1247,16 +1212,15 @@ class C02(Check):
     ]
     assumptions = [
         'slivers are instances of the five concrete sliver classes built through their setters (CompositeNodeSliver is outside the domain)',
-        'well-formed slivers: name set, sibling names unique, components typed, no empty child dictionaries, values of the setter\'s type',
+        'well-formed slivers: name set, sibling names unique, components typed, no empty child dictionaries, values of the setter\'s type; '
+        'a value object with nothing set reads back as absent (documented by C03, not counted as a deviation)',
+        'graph route: every sliver has its own node id; only a DedicatedPort interface owns child interfaces, one level deep '
+        '(what add_child_interface allows and build_deep_interface_sliver descends into)',
         'the graph route is checked on the in-memory (NetworkX) backend only',
     ]
 
     def refuted_witnesses(self):
-        return [('C02_graph_route_drops_subinterfaces', w_subif),
-                ('C02_absent_gateway_reads_empty_object', w_gateway),
-                ('C02_empty_object_reads_absent', w_empty),
-                ('C02_image_pair_and_unmapped_unset', w_image),
-                ('C02_image_ref_with_comma_unreadable', w_comma)]
+        return [('C02_image_pair_and_unmapped_unset', w_image)]
 
     def extra_static(self, ctx):
         """the generators know a value for every setter the library's classes expose (a new setter without a
